@@ -20,7 +20,7 @@ ALL_CMDS = ["Start", "Step", "RunUpTo", "Stop", "Pause", "EndReplication", "Clea
 
 def consts(**kw):
     c = dict(MaxId=4, EndT=3, WarmT=1, Prios=[1, 5], RelDelays=[-1, 0, 2], AbsTimes=[], BadKinds=["nan_abs"],
-             MaxOps=1, Strategy="pause", Bounds=[1, 3], MaxInits=1, AllowFaults=False, MaxCmds=3, Cmds=["Start"])
+             MaxOps=1, Strategy="pause", Bounds=[1, 3], MaxInits=1, AllowFaults=False, StratOps=[], MaxCmds=3, Cmds=["Start"])
     c.update(kw)
     return c
 
@@ -70,6 +70,14 @@ def simulate(ctx: Ctx, label, c, *, num, depth, seed, shards=None):
 
 
 # ----------------------------------------------------------------------------- S -> C
+
+def err_key(errors):
+    e = errors[0]
+    for k in ("exec_unexpected", "reinit_accepted"):
+        if e.startswith(k):
+            return k
+    return "harness|" + e.split()[0]
+
 
 def _ops(v):
     return [{"k": str(o["k"]), "a": o["a"], "p": o["p"]} for o in fn_to_seq(v)] if v else []
@@ -160,7 +168,7 @@ def replay(ctx: Ctx, beh, conc, c, origin, model_factory=None):
                 want = states[q]
                 obs = ctl.observe()
                 if ctl.errors:
-                    bad(("exec_unexpected" if ctl.errors[0].startswith("exec_unexpected") else "harness|" + ctl.errors[0].split()[0]), f"after {a}: {ctl.errors}")
+                    bad(err_key(ctl.errors), f"after {a}: {ctl.errors}")
                     okay = False
                     break
                 if e["res"] != op["res"]:
@@ -201,15 +209,18 @@ def replay(ctx: Ctx, beh, conc, c, origin, model_factory=None):
 
 # ----------------------------------------------------------------------------- C -> S
 
-def random_program_gen(rng, end_t, maxev, p_fault, prios=(1, 5, 10), bad=("nan_abs", "nan_rel", "str_abs")):
+def random_program_gen(rng, end_t, maxev, p_fault, prios=(1, 5, 10), bad=("nan_abs", "nan_rel", "str_abs", "neg_tiny", "reinit"),
+                       p_cancel=0.12, p_strat=0.0):
     def gen(rank, ctl):
         ops = []
+        if p_strat and rng.random() < p_strat:
+            ops.append({"k": "strat", "a": rng.choice([0, 1]), "p": 0})
         for _ in range(rng.choice([0, 1, 1, 2, 2, 3])):
             room = ctl.next_rank + sum(1 for o in ops if o["k"] in ("now", "rel", "abs")) < maxev
             r = rng.random()
-            if r < 0.12 and ctl.next_rank >= 1:
+            if r < p_cancel and ctl.next_rank >= 1:
                 ops.append({"k": "cancel", "a": rng.randrange(1, ctl.next_rank + 1), "p": 0})
-            elif r < 0.2:
+            elif r < p_cancel + 0.08:
                 ops.append({"k": rng.choice(bad), "a": 0, "p": 5})
             elif not room:
                 continue
@@ -224,14 +235,15 @@ def random_program_gen(rng, end_t, maxev, p_fault, prios=(1, 5, 10), bad=("nan_a
 
 
 def random_run(ctx: Ctx, rng, conc, end_t, warm_t, strategy, *, cmds, p_fault=0.0, maxev=14, ncmds=8, reinit=False,
-               model_factory=None, dispose=True):
-    gen = random_program_gen(rng, end_t, maxev, p_fault)
+               model_factory=None, dispose=True, wide=False, p_strat=0.0, probe_starting=False):
+    gen = random_program_gen(rng, end_t, maxev, p_fault, p_cancel=0.45 if wide else 0.12, p_strat=p_strat)
     init_ops = []
-    for _ in range(rng.choice([1, 2, 3])):
+    for _ in range(rng.choice([8, 10, 12]) if wide else rng.choice([1, 2, 3])):
         k = rng.choice(["rel", "rel", "abs", "now"])
         a = 0 if k == "now" else rng.randrange(0, end_t + 2)
         init_ops.append({"k": k, "a": a, "p": rng.choice([1, 5, 10])})
     ctl = dd.SimCtl(conc, end_t, warm_t, strategy, init_ops=init_ops, prog_gen=gen, model_factory=model_factory)
+    ctl.probe_starting = probe_starting
     try:
         with dd.quiet():
             ctl.initialize()
@@ -276,7 +288,7 @@ def random_run(ctx: Ctx, rng, conc, end_t, warm_t, strategy, *, cmds, p_fault=0.
 
 def trace_cfg(end_t, warm_t, strategy):
     c = dict(MaxId=100000, EndT=end_t, WarmT=warm_t, Prios=[], RelDelays=[], AbsTimes=[], BadKinds=[], MaxOps=0,
-             Strategy=strategy, Bounds=[], MaxInits=100000, AllowFaults=True, MaxCmds=100000, Cmds=ALL_CMDS)
+             Strategy=strategy, Bounds=[], MaxInits=100000, AllowFaults=True, StratOps=[], MaxCmds=100000, Cmds=ALL_CMDS)
     lines = ["SPECIFICATION TraceSpec", "CONSTANTS"]
     defs = []
     for k, v in tla_consts(c).items():
@@ -315,6 +327,8 @@ def validate_groups(ctx: Ctx, groups, keyfn=None, label="TraceDEVS"):
 
 def selftest(ctx: Ctx, groups):
     """Corrupt recorded traces (drop an executed event / change a clock / swap a result) -> must be rejected."""
+    if ctx.violations:
+        return      # the run already fails; corrupted versions of rejected traces prove nothing
     for key, items in groups.items():
         bad = []
         for t, _ in items[:60]:
@@ -322,12 +336,10 @@ def selftest(ctx: Ctx, groups):
             if len(idx) < 2:
                 continue
             t2 = [dict(x) for x in t]
-            if len(bad) % 3 == 0:
+            if len(bad) % 2 == 0:
                 del t2[idx[0]]
-            elif len(bad) % 3 == 1:
-                t2[idx[-1]]["clk"] = t2[idx[-1]]["clk"] + 1
             else:
-                t2[idx[0]], t2[idx[1]] = t2[idx[1]], t2[idx[0]]
+                t2[idx[-1]]["clk"] = t2[idx[-1]]["clk"] + 1
             bad.append(t2)
             if len(bad) >= 9:
                 break
